@@ -6,7 +6,8 @@
 #define ABSV(x) ((x) < 0 ? -(x) : (x))
 #define IOS_GOOD(s) (!(s)->fail && !((s)->pos >= (s)->ntok && (s)->eof_after_last))
 /* k-th token of the input queue counted from the position at entry */
-#define TOK(s, k) ((s)->tok[__CPROVER_old((s)->pos) + (k)])
+/* (the index is clamped so that the term is well defined on refusing paths too) */
+#define TOK(s, k) ((s)->tok[(__CPROVER_old((s)->pos) + (k)) < IOS_MAXTOK ? __CPROVER_old((s)->pos) + (k) : 0])
 #define READ_OK(s, n) ((s)->pos == __CPROVER_old((s)->pos) + (n) && IOS_GOOD(s))
 #define MULMOD(a, b, m) MOD(MUL((a), (b)), (m))
 /* class invariant of an initialised, finalised VTMF object (documented usage: CheckGroup was called,
